@@ -274,6 +274,14 @@ func (x *Exec) obligeInv(cfg *Config, env *SpecEnv, e Expr, kind, prefix string,
 				continue
 			}
 		}
+		if q, ok := cj.(EQuant); ok && depth < 2 {
+			if parts := x.splitQuantGoal(env, q); parts != nil {
+				for _, pe := range parts {
+					x.oblige(cfg, kind, prefix+pe.exprString(), x.specBool(env, pe), props, pos)
+				}
+				continue
+			}
+		}
 		x.oblige(cfg, kind, prefix+cj.exprString(), x.specBool(env, cj), props, pos)
 	}
 }
@@ -839,4 +847,128 @@ func (x *Exec) guardedAccess(cfg *Config, addr Val, write bool, what string, pos
 	top0 := x.d.Const("H0!$top", SInt)
 	goal := Or(held, Gt(a.Base, top0))
 	x.oblige(cfg, "guarded-"+rw, fmt.Sprintf("%s.%s by %s", typeName(a.STyp), fname, mfield), goal, []string{"C13"}, pos)
+}
+
+// substExpr replaces free identifiers of e according to sub (a quantifier
+// that rebinds a substituted name stops the substitution below it).
+func substExpr(e Expr, sub map[string]Expr) Expr {
+	if e == nil {
+		return nil
+	}
+	switch ee := e.(type) {
+	case EIdent:
+		if r, ok := sub[ee.Name]; ok {
+			return r
+		}
+		return ee
+	case EUnary:
+		return EUnary{ee.Op, substExpr(ee.X, sub)}
+	case EBinary:
+		return EBinary{ee.Op, substExpr(ee.L, sub), substExpr(ee.R, sub)}
+	case ECond:
+		return ECond{substExpr(ee.C, sub), substExpr(ee.A, sub), substExpr(ee.B, sub)}
+	case EField:
+		return EField{substExpr(ee.X, sub), ee.Name}
+	case EIndex:
+		return EIndex{substExpr(ee.X, sub), substExpr(ee.I, sub)}
+	case ESlice:
+		return ESlice{substExpr(ee.X, sub), substExpr(ee.Lo, sub), substExpr(ee.Hi, sub)}
+	case ECall:
+		n := ECall{Fn: ee.Fn}
+		for _, a := range ee.Args {
+			n.Args = append(n.Args, substExpr(a, sub))
+		}
+		return n
+	case EQuant:
+		inner := sub
+		for _, v := range ee.Vars {
+			if _, clash := sub[v.Name]; clash {
+				inner = map[string]Expr{}
+				for k, r := range sub {
+					inner[k] = r
+				}
+				for _, v2 := range ee.Vars {
+					delete(inner, v2.Name)
+				}
+				break
+			}
+		}
+		return EQuant{ee.Forall, ee.Vars, substExpr(ee.Body, inner)}
+	case ESeqLit:
+		n := ESeqLit{}
+		for _, a := range ee.Elems {
+			n.Elems = append(n.Elems, substExpr(a, sub))
+		}
+		return n
+	}
+	return e
+}
+
+// conjunctsDeep flattens e into conjuncts, unfolding (one level of) boolean
+// predicates by substitution so that the result is meaningful under binders.
+func (x *Exec) conjunctsDeep(env *SpecEnv, e Expr, depth int) []Expr {
+	switch ee := e.(type) {
+	case EBinary:
+		if ee.Op == "&&" {
+			return append(x.conjunctsDeep(env, ee.L, depth), x.conjunctsDeep(env, ee.R, depth)...)
+		}
+	case ECall:
+		if depth < 1 {
+			if pd := x.findPred(env, ee.Fn); pd != nil && len(pd.Params) == len(ee.Args) && pd.Ret == "bool" {
+				sub := map[string]Expr{}
+				for k, p := range pd.Params {
+					a := ee.Args[k]
+					if strings.HasPrefix(p.Type, "*") {
+						a = ECall{Fn: "cast", Args: []Expr{a, EStr{p.Type}}}
+					}
+					sub[p.Name] = a
+				}
+				return x.conjunctsDeep(env, substExpr(pd.Body, sub), depth+1)
+			}
+		}
+	}
+	return []Expr{e}
+}
+
+// splitQuantGoal: forall v :: [withtrig(pats...,] A ==> (C1 && C2 && ...) [)]
+// is proved as one obligation per Ci (same hypotheses, smaller goals).
+func (x *Exec) splitQuantGoal(env *SpecEnv, q EQuant) []Expr {
+	if !q.Forall {
+		return nil
+	}
+	body := q.Body
+	var wrap func(Expr) Expr = func(b Expr) Expr { return b }
+	if wc, ok := body.(ECall); ok && (wc.Fn == "withtrig" || wc.Fn == "withmtrig") && len(wc.Args) >= 2 {
+		pats := wc.Args[:len(wc.Args)-1]
+		fn := wc.Fn
+		body = wc.Args[len(wc.Args)-1]
+		wrap = func(b Expr) Expr { return ECall{Fn: fn, Args: append(append([]Expr{}, pats...), b)} }
+	}
+	imp, ok := body.(EBinary)
+	if !ok || imp.Op != "==>" {
+		return nil
+	}
+	cs := x.conjunctsDeep(env, imp.R, 0)
+	if len(cs) < 2 {
+		return nil
+	}
+	var out []Expr
+	for _, c := range cs {
+		out = append(out, EQuant{true, q.Vars, wrap(EBinary{"==>", imp.L, c})})
+	}
+	return out
+}
+
+// obligeParts proves a clause; a universally quantified implication with a
+// conjunctive conclusion is proved conclusion by conclusion.
+func (x *Exec) obligeParts(cfg *Config, env *SpecEnv, kind, label string, e Expr, props []string, pos token.Pos) {
+	if q, ok := e.(EQuant); ok {
+		if parts := x.splitQuantGoal(env, q); parts != nil {
+			for k, pe := range parts {
+				x.oblige(cfg, kind, fmt.Sprintf("%s [%d/%d]", label, k+1, len(parts)), x.specBool(env, pe), props, pos)
+			}
+			return
+		}
+	}
+	x.oblige(cfg, kind, label, x.specBool(env, e), props, pos)
 }
